@@ -1,7 +1,7 @@
 (** Case language of the C14 correspondence check. The Go harness (harness/cmd/c14)
     writes [coq/gen/Cases_C14_*.v] with the inputs it gave to the implementation AND
     what the implementation returned; [check] re-runs the model. *)
-From CSS Require Import Lib.Base Lib.Cases Model.AddrMap Model.Delivered.
+From CSS Require Import Lib.Base Lib.Cases Model.AddrMap Model.Delivered Model.VolumeOf.
 
 Inductive case : Type :=
 (* PhysMemMapper: which = 0 Resolve, 1 ResolveFullImageOffset, 2 Unresolve, 3 UnresolveFullImageOffset;
@@ -44,7 +44,15 @@ Inductive case : Type :=
    kind 1: UEFIGUIDFirst{g}; rs = the ranges the walker (container fallback on) handed over
            for the objects named g, in visit order (image offsets, 2^64-1 = unknown)
    kind 2: UEFIFiles(pred); rs likewise for the selected files *)
-| CDelivered (kind : Z) (size woff : Z) (win : list Z) (rs : list range) (r : obs (list Z)).
+| CDelivered (kind : Z) (size woff : Z) (win : list Z) (rs : list range) (r : obs (list Z))
+(* VolumeOf(inner).Data on an image of [size] bytes (Model/VolumeOf.v): [nodes] = what the walker
+   (no fallback) reports, in visit order, with "is a firmware volume" -- every volume, and of
+   the other nodes those that cover the first byte of one of the ranges; [refs] = the references
+   of the inner data source's Data, each with "AddressMapper is PhysMemMapper" and its ranges AS
+   THE INNER SOURCE GAVE THEM (several ranges per reference, several references: touching at a
+   border between volumes, in one volume, unsorted, repeated, with gaps ...); [res] = the ranges
+   of the references of the returned Data *)
+| CVolumeOfList (size : Z) (nodes : list (bool * range)) (refs : list vref) (res : obs (list range)).
 
 Definition range_eqb (a b : range) : bool := (fst a =? fst b) && (snd a =? snd b).
 Definition ranges_eqb := list_eqb range_eqb.
@@ -99,6 +107,7 @@ Definition check (c : case) : bool :=
         (if kind =? 0 then mem_ranges_bytes content rs
          else if kind =? 1 then guid_first_bytes content rs
          else uefi_files_bytes content rs)
+  | CVolumeOfList size nodes refs res => obs_match ranges_eqb res (volume_of size nodes refs)
   end.
 
 Definition mismatches := mismatches_by check.
